@@ -1,7 +1,7 @@
 (* Properties/C16.v — Parsing is zero-copy and allocation-free in steady state.
    Only statements, each closed by [exact] of a lemma proved in Proofs/ParseAlias.v. *)
 From PV Require Import Base.Prelude Base.Slice Model.Parse Spec.RFC Model.ParseKnown Model.ParseAlias Model.ParseAlloc
-  Proofs.Parse Proofs.ParseAcc Proofs.ParseAlias Proofs.ParseRef Proofs.ParseRefEq.
+  Model.ParseFixes Model.ParseCalls Proofs.Parse Proofs.ParseAcc Proofs.ParseAlias Proofs.ParseRef Proofs.ParseRefEq Proofs.ParseAliasFull Proofs.ParseCalls.
 Open Scope N_scope.
 
 (* ---- views alias the caller's buffer, none extends beyond the frame ------------------------------ *)
@@ -109,3 +109,72 @@ Example C16_steady_state_nonvacuous :
   parse_allocs cfg0 (fun _ => Untracked) (of_bytes ex_arp28) = Ok 3%nat.
 Proof. exact steady_state_nonvacuous. Qed.
 Print Assumptions C16_steady_state_nonvacuous.
+
+(* ==== Aliasing clause at full strength, for the code in force ==========================================================
+   For every frame Parse accepts (every PayloadID class: also VLAN-tagged frames, IPv6 with any next header incl.
+   extension headers; every session configuration - tracked / untracked / new sources do not enter) and every
+   capacity: each view returned by the Frame accessors is exactly the input's storage from the offset the reference
+   decoder computes to the end of the frame (nil where the reference has no such layer); the two MAC views are
+   p[6:12] and p[0:6]; every offset lies inside the frame. *)
+Theorem C16_views_alias_full : forall c s f,
+  c_fx c = current_fixes -> wf s -> bytes_ok (view s) -> parse c s = Ok f ->
+  exists r, ref_decode (view s) = ROk r /\
+    view_get s f VE = ref_view s (Some 0%nat) /\
+    view_get s f V4 = ref_view s (r_ip4 r) /\
+    view_get s f V6 = ref_view s (r_ip6 r) /\
+    view_get s f VU = ref_view s (r_udp r) /\
+    view_get s f VT = ref_view s (r_tcp r) /\
+    view_get s f VP = ref_view s (Some (r_pay r)) /\
+    view_get s f VS = Ok (Some (view_at (arr s) 6 6)) /\
+    view_get s f VD = Ok (Some (view_at (arr s) 0 6)) /\
+    (14 <= r_pay r <= len s)%nat /\
+    (forall o, r_ip4 r = Some o \/ r_ip6 r = Some o \/ r_udp r = Some o \/ r_tcp r = Some o -> (0 < o <= len s)%nat).
+Proof. exact views_alias_full. Qed.
+Print Assumptions C16_views_alias_full.
+
+Example C16_alias_examples :
+  (exists f, parse cfg_cur (of_bytes ex_vlan) = Ok f /\ f_id f = PayloadEther /\
+     view_get (of_bytes ex_vlan) f V4 = Ok None /\ view_get (of_bytes ex_vlan) f VU = Ok None /\
+     view_get (of_bytes ex_vlan) f VP = Ok (Some (view_at ex_vlan 18 30))) /\
+  (exists f, parse cfg_cur (of_bytes ex_hbh) = Ok f /\ f_id f = PayloadIP6 /\
+     view_get (of_bytes ex_hbh) f V6 = Ok (Some (view_at ex_hbh 14 56)) /\
+     view_get (of_bytes ex_hbh) f VP = Ok (Some (view_at ex_hbh 54 16)) /\
+     f_host f = Some ([2;17;17;17;17;17], [254;128;0;0;0;0;0;0;0;0;0;0;0;0;0;1])).
+Proof. exact alias_examples. Qed.
+Print Assumptions C16_alias_examples.
+
+(* ==== Allocation clause: the call table ================================================================================
+   Model/ParseCalls.v lists, per branch of Parse, the functions it calls; the harness re-derives the table from
+   layer_frame.go with go/ast on every run (kind "calls").  From the table: the only callees that can allocate are
+   IsValid (fmt.Errorf when it fails), findOrCreateHostWithLock (new host) and hostOnline (log line on a transition);
+   the last two occur in the IPv4, IPv6 and ARP cases only.  PARTIAL BY NATURE: that the remaining callees (re-slicing,
+   conversions, netip value operations, atomics, the mutex-guarded lookup of echoNotify) do not allocate is decided by
+   the Go compiler and runtime; it is measured (testing.AllocsPerRun sweep), not proved. *)
+Theorem C16_every_callee_classified :
+  forallb (fun b => forallb (fun n => match callee_kind n with
+                                      | NoAlloc => true
+                                      | OnError => String.eqb n ".IsValid"
+                                      | HostPath => String.eqb n ".findOrCreateHostWithLock"
+                                      | LogPath => String.eqb n ".hostOnline"
+                                      end) (snd b)) parse_calls = true.
+Proof. exact every_callee_classified. Qed.
+Print Assumptions C16_every_callee_classified.
+
+Theorem C16_host_calls_only_ip_arp :
+  branches_with HostPath = ["et:2048"; "et:2054"; "et:34525"]%string /\
+  branches_with LogPath = ["et:2048"; "et:2054"; "et:34525"]%string.
+Proof. exact host_calls_only_ip_arp. Qed.
+Print Assumptions C16_host_calls_only_ip_arp.
+
+Theorem C16_error_calls :
+  branches_with OnError = ["et:2048"; "et:34525"; "proto:1"; "proto:17"; "proto:58"; "proto:6"; "top"]%string.
+Proof. exact error_calls. Qed.
+Print Assumptions C16_error_calls.
+
+(* the counter is non-zero for an accepted frame only through the host path, and only for IPv4 / IPv6 / ARP frames *)
+Theorem C16_counter_matches_calls : forall c st s f n,
+  parse c s = Ok f -> parse_allocs c st s = Ok (S n) ->
+  exists k, f_host f = Some k /\ st k <> TrackedOnline /\
+            ((0 < f_off4 f)%nat \/ (0 < f_off6 f)%nat \/ f_id f = PayloadARP).
+Proof. exact counter_matches_calls. Qed.
+Print Assumptions C16_counter_matches_calls.
